@@ -32,6 +32,17 @@ def make_variant(case, root=None):
                         ignore=shutil.ignore_patterns("__pycache__"))
         for ed in case["edits"]:
             path = os.path.join(tmp, ed["file"])
+            if ed.get("from_commit"):
+                # the file as it was at a given commit of /repo (used to replay the defects repaired by fix: commits)
+                import subprocess
+                r = subprocess.run(["git", "-C", root, "show", "%s:%s" % (ed["from_commit"], ed["file"])],
+                                   capture_output=True, text=True)
+                if r.returncode != 0:
+                    shutil.rmtree(tmp, ignore_errors=True)
+                    return None, "commit %s not available" % ed["from_commit"]
+                with open(path, "w") as f:
+                    f.write(r.stdout)
+                continue
             src = open(path).read()
             if src.count(ed["old"]) != 1:
                 shutil.rmtree(tmp, ignore_errors=True)
